@@ -6,7 +6,7 @@
     hooks under the token-passing scheduler, compared event by event with this model. *)
 From CB Require Import Threads ThreadSpec ThreadsFine ThreadsTakeMerge ThreadsTakeCombine Inv_threads_take
   Inv_threads_takemerge Inv_threads_take_fine Inv_threads_takecombine Inv_threads_total
-  Inv_threads_always ThreadsTakeMergeFine Inv_threads_takemerge_fine.
+  Inv_threads_always ThreadsTakeMergeFine Inv_threads_takemerge_fine Inv_threads_takemerge_fine2.
 
 Theorem C19_safe max qs s :
   tk_reach max qs s ->
@@ -249,3 +249,13 @@ Theorem C19_takemerge_fine_kf4_witness :
   /\ In TvPanic (takemerge_check 1 (rev (xfs_tr s))).
 Proof. exact takemerge_fine_kf4_witness. Qed.
 Print Assumptions C19_takemerge_fine_kf4_witness.
+
+(** take ends its upstream also when merge's sink-side sweep walks the cells one access at a time while
+    members greet, complete and fail concurrently (the Dekker argument for both kinds of sweeper) *)
+Theorem C19_takemerge_fine_members_stopped max n qs fins s : 1 <= max -> xf_reach max n qs fins s ->
+  (forall t, t < n -> xf_finished s t = true) -> before_greet_ok (rev (xfs_tr s)) = true ->
+  max <= count is_begin_data (xfs_tr s) ->
+  forall j, j < n -> count (is_up_term_of j) (xfs_tr s) = 1
+                     \/ (xf_q (xfs_th s j) = [] /\ fins j <> FinNone /\ xfs_stopped s j = false).
+Proof. exact (@takemerge_fine_members_stopped max n qs fins s). Qed.
+Print Assumptions C19_takemerge_fine_members_stopped.
